@@ -12,9 +12,9 @@ structure St where
 def clsOf (t : List String) : Cls := if kvn t "cls" 64 == 32 then .c32 else .c64
 
 /-- what the loader leaves for a section with bytes `d` (NULL/NOBITS sections never get data) -/
-def loaded (cls : Cls) (ty : BitVec 32) (d : Bytes) (lazy : Bool) : SecBuf :=
+def loaded (cls : Cls) (ty : BitVec 32) (d : Bytes) (lazy : Bool) (size : BitVec 64) : SecBuf :=
   let b := if lazy then SecBuf.loadedLazy cls ty d 0 else SecBuf.loadedEager cls ty d 0
-  if b.isNullOrNobits then { b with data := none, dataSize := 0 } else b
+  if b.isNullOrNobits then { b with data := none, dataSize := 0, size := size } else b
 
 def renderGet (index : Nat) : Option Bytes → String
   | none => "null"
@@ -39,7 +39,7 @@ def step (st : Option St) (t : List String) : Option St × String :=
   | "loadsec" :: rest =>
     let d := bytesOfHex ((kv? rest "data").getD "-")
     let ty := BitVec.ofNat 32 (kvn rest "type" 3)
-    let b := loaded (clsOf rest) ty d (kvn rest "lazy" 0 == 1)
+    let b := loaded (clsOf rest) ty d (kvn rest "lazy" 0 == 1) 0
     (some { b, ty }, s!"size={b.size.toNat}")
   | op :: args =>
     match st with
@@ -51,6 +51,9 @@ def step (st : Option St) (t : List String) : Option St × String :=
         match s.b.setData (some bs) (BitVec.ofNat 64 bs.length) with
         | .ok b' => (some { s with b := b' }, s!"size={b'.size.toNat}")
         | .error f => (none, f.render)
+      | "setsize", [n] =>
+        let b' := s.b.setSize (BitVec.ofNat 64 (parseNat n))
+        (some { s with b := b' }, s!"size={b'.size.toNat}")
       | "add", [h] => doAdd s (some (bytesOfHex h))
       | "adds", [h] => doAdd s (some (bytesOfHex h))
       | "addnull", [] => doAdd s none
@@ -68,7 +71,7 @@ def step (st : Option St) (t : List String) : Option St × String :=
         -- the harness makes the data resident, saves the whole file and loads it again
         let b := s.b.getData
         let d := b.view
-        let b' := loaded b.cls s.ty d (kvn rest "lazy" 0 == 1)
+        let b' := loaded b.cls s.ty d (kvn rest "lazy" 0 == 1) b.size
         (some { s with b := b' }, s!"size={b'.size.toNat}")
       | _, _ => (st, "bad-op")
   | [] => (st, "bad-op")
